@@ -524,6 +524,63 @@ func c09StalledProbeBody(thenFails bool) *Scenario {
 	return sc
 }
 
+// c09AfterRefusedRedeploy: a redeploy of a service with rollout targets is refused for a host conflict (after its new
+// target became healthy). The targets in service - active and rollout - keep being probed, so a rollout target that
+// starts failing afterwards is taken out of the rotation.
+func c09AfterRefusedRedeploy() *Scenario {
+	sc := &Scenario{Name: "C09 rollout target fails after a refused redeploy of its service", Horizon: 60 * time.Second}
+	var late []*ReqObs
+	var refused *CmdObs
+	sc.Run = func(w *World) {
+		late, refused = nil, nil
+		w.AddTarget("oa:80")
+		w.AddTarget("xa:80")
+		w.AddTarget("na:80")
+		w.AddTarget("ra:80", pOK(), pOK(), pOK(), p500())
+		t0 := w.Now()
+		w.Deploy(deployArgs("s1", []string{"oa:80"}, []string{"a.example.com"}, nil))
+		w.Deploy(deployArgs("s2", []string{"xa:80"}, []string{"b.example.com"}, nil))
+		w.RolloutDeploy("s1", []string{"ra:80"})
+		w.RolloutSet("s1", 0, []string{"v"})
+		time.Sleep(500 * time.Millisecond)
+		w.S.SetWindow(true)
+		refused = w.Deploy(deployArgs("s1", []string{"na:80"}, []string{"a.example.com", "b.example.com"}, nil))
+		w.S.SetWindow(false)
+		time.Sleep(t0 + 5*vI + 300*time.Millisecond - w.Now())
+		for i := 0; i < 2; i++ {
+			late = append(late, w.Do(ReqSpec{ID: fmt.Sprintf("late-cookie%d", i), Host: "a.example.com", Cookie: "kamal-rollout=v"}))
+			late = append(late, w.Do(ReqSpec{ID: fmt.Sprintf("late-plain%d", i), Host: "a.example.com"}))
+		}
+	}
+	sc.Check = func(w *World) []Violation {
+		var vs []Violation
+		if refused == nil || refused.Err == nil || len(late) != 4 || w.HadStall() {
+			return vs
+		}
+		probes := 0
+		for _, e := range w.Net.Events() {
+			if e.Kind == "probe" && e.Target == "ra:80" && e.Seq > refused.EndSeq {
+				probes++
+			}
+		}
+		if probes < 3 {
+			vs = append(vs, Violation{"C09", "probing-stopped after-refused-redeploy", fmt.Sprintf("the rollout target of s1 got %d probes in the 4 intervals after a redeploy of s1 was refused (%v)", probes, refused.Err)})
+		}
+		for _, r := range late {
+			if strings.Contains(r.ID, "cookie") && r.ServedBy() == "ra:80" {
+				vs = append(vs, Violation{"C09", "request-sent-to-failing-target after-refused-redeploy", fmt.Sprintf("ra:80 has failed its probes since 3 intervals after deployment, yet %s", r.Summary())})
+				break
+			}
+			if strings.Contains(r.ID, "plain") && (r.Status != 200 || r.ServedBy() != "oa:80") {
+				vs = append(vs, Violation{"C09", "healthy-target-not-used after-refused-redeploy", r.Summary()})
+				break
+			}
+		}
+		return vs
+	}
+	return sc
+}
+
 // c09OverlappingDrains: two commands that drain the same healthy targets overlap (the first with the shorter drain
 // timeout, a request in flight on every target); once both have returned and the service is resumed, every target has
 // passed all its probes and no command is running: the rotation must use all of them before the next probe tick.
@@ -604,6 +661,11 @@ func checkC09(t *testing.T, job *Job, res *Result) {
 	}
 	for _, rec := range []bool{false, true} {
 		sc := c09DrainWindow(rec)
+		sc.Bounds = &Bounds{D: 1, S: 0}
+		scs = append(scs, sc)
+	}
+	{
+		sc := c09AfterRefusedRedeploy()
 		sc.Bounds = &Bounds{D: 1, S: 0}
 		scs = append(scs, sc)
 	}
